@@ -231,3 +231,32 @@ Section Classes.
   Qed.
 
 End Classes.
+
+(** a decidable form of [close_equiv] (for concrete lists) *)
+Section Decide.
+  Variables (group_by close_tests : list str) (atol : Q).
+  Local Notation SG := (same_group group_by close_tests atol).
+
+  Definition res_true (r : res bool) : bool := match r with Ok true => true | _ => false end.
+
+  Lemma res_true_iff r : res_true r = true <-> r = Ok true.
+  Proof. destruct r as [[|]|e]; cbn; split; congruence. Qed.
+
+  Definition close_equivb (ms : list meta) : bool :=
+    forallb (fun a => res_true (SG a a)) ms &&
+    forallb (fun a => forallb (fun b => implb (res_true (SG a b)) (res_true (SG b a))) ms) ms &&
+    forallb (fun a => forallb (fun b => forallb (fun c =>
+       implb (res_true (SG a b) && res_true (SG b c)) (res_true (SG a c))) ms) ms) ms.
+
+  Lemma close_equivb_sound ms : close_equivb ms = true -> close_equiv group_by close_tests atol ms.
+  Proof.
+    unfold close_equivb. rewrite !andb_true_iff, !forallb_forall. intros [[R S] T]. split; [|split].
+    - intros a Ha. apply res_true_iff. apply R; exact Ha.
+    - intros a b Ha Hb Hab. specialize (S a Ha). rewrite forallb_forall in S. specialize (S b Hb).
+      apply res_true_iff in Hab. rewrite Hab in S. cbn [implb] in S. apply res_true_iff. exact S.
+    - intros a b c Ha Hb Hc Hab Hbc. specialize (T a Ha). rewrite forallb_forall in T. specialize (T b Hb).
+      rewrite forallb_forall in T. specialize (T c Hc).
+      apply res_true_iff in Hab. apply res_true_iff in Hbc. rewrite Hab, Hbc in T. cbn [implb andb] in T.
+      apply res_true_iff. exact T.
+  Qed.
+End Decide.
